@@ -161,7 +161,7 @@ wait:
 }
 
 func c24Gen(rt *rapid.T) c24Case {
-	c := c24Case{Block: genBlockCase(rt, genOpts{maxTxs: 10, allowInvalid: false, allowSponsorK: true, oddPerms: false})}
+	c := c24Case{Block: genBlockCase(rt, genOpts{maxTxs: 10, allowInvalid: false, allowSponsorK: true, oddPerms: false, yields: true})}
 	switch rapid.IntRange(0, 3).Draw(rt, "faultMode") {
 	case 1:
 		c.FailNth = rapid.IntRange(1, 12).Draw(rt, "failNth")
